@@ -57,30 +57,42 @@ Proof. unfold run_real. rewrite <- (real_stream_merge c1), <- (real_stream_merge
 Lemma run_test_count all_sep c1 c2 t : run_test all_sep c1 t = run_test all_sep c2 t.
 Proof. destruct t as [f|ok ws|p i]; simpl; [destruct all_sep; [apply run_real_count|reflexivity] | reflexivity | apply run_real_count]. Qed.
 
-Lemma run_tests_independent all_sep : forall ts c,
-  fst (run_tests all_sep c ts) = map (run_test all_sep 0) ts /\
-  snd (run_tests all_sep c ts) = c + total_fails (map (run_test all_sep 0) ts).
+Lemma run_case_count all_sep run_ign c1 c2 tc : run_case all_sep run_ign c1 tc = run_case all_sep run_ign c2 tc.
+Proof. unfold run_case. destruct (c_ign tc), run_ign; try reflexivity; apply run_test_count. Qed.
+Lemma verdict_independent :
+  (forall all_sep c1 c2 t, run_test all_sep c1 t = run_test all_sep c2 t) /\
+  (forall all_sep run_ign c1 c2 tc, run_case all_sep run_ign c1 tc = run_case all_sep run_ign c2 tc).
+Proof. split; [exact run_test_count|exact run_case_count]. Qed.
+
+Lemma run_tests_independent all_sep run_ign : forall ts c,
+  fst (run_tests all_sep run_ign c ts) = map (run_case all_sep run_ign 0) ts /\
+  snd (run_tests all_sep run_ign c ts) = c + total_fails (map (run_case all_sep run_ign 0) ts).
 Proof.
   induction ts as [|t tl IH]; intro c.
   - simpl. unfold total_fails. simpl. split; [reflexivity|lia].
-  - simpl. specialize (IH (c + N.of_nat (length (i_fails (run_test all_sep c t))))).
-    destruct (run_tests all_sep _ tl) as [its c']. simpl in *. destruct IH as [-> ->].
-    rewrite (run_test_count all_sep c 0 t). split; [reflexivity|]. unfold total_fails. simpl. lia.
+  - simpl. specialize (IH (c + N.of_nat (length (i_fails (run_case all_sep run_ign c t))))).
+    destruct (run_tests all_sep run_ign _ tl) as [its c']. simpl in *. destruct IH as [-> ->].
+    rewrite (run_case_count all_sep run_ign c 0 t). split; [reflexivity|]. unfold total_fails. simpl. lia.
 Qed.
 
 Lemma parent_continues : forall s,
-  o_items (run s) = map (run_test (s_all_sep s) 0) (s_tests s) /\
+  o_items (run s) = map (run_case (s_all_sep s) (s_run_ign s) 0) (s_tests s) /\
   length (o_items (run s)) = length (s_tests s) /\
   o_total (run s) = total_fails (o_items (run s)) /\
+  o_run (run s) + o_ign (run s) = N.of_nat (length (s_tests s)) /\
   (s_tests s <> [] -> (o_failed (run s) = true <-> exists it, In it (o_items (run s)) /\ i_fails it <> [])).
 Proof.
-  intro s. unfold run. destruct (run_tests_independent (s_all_sep s) (s_tests s) 0) as [E1 E2].
-  destruct (run_tests (s_all_sep s) 0 (s_tests s)) as [its total]. simpl in *. subst its. subst total.
-  split; [reflexivity|]. split; [apply map_length|]. split; [reflexivity|].
-  intro NE. assert (Z : (N.of_nat (length (s_tests s)) =? 0) = false).
-  { apply N.eqb_neq. destruct (s_tests s); [congruence|simpl; lia]. }
+  intro s. unfold run. destruct (run_tests_independent (s_all_sep s) (s_run_ign s) (s_tests s) 0) as [E1 E2].
+  destruct (run_tests (s_all_sep s) (s_run_ign s) 0 (s_tests s)) as [its total]. rewrite count_cases_spec. simpl in *.
+  subst its. subst total.
+  pose proof (filter_partition_length (skipped (s_run_ign s)) (s_tests s)) as P.
+  split; [reflexivity|]. split; [apply map_length|]. split; [reflexivity|]. split; [lia|].
+  intro NE.
+  assert (Z : (N.of_nat (length (filter (fun tc => negb (skipped (s_run_ign s) tc)) (s_tests s))) +
+               N.of_nat (length (filter (skipped (s_run_ign s)) (s_tests s))) =? 0) = false).
+  { apply N.eqb_neq. destruct (s_tests s); [congruence|]. change (length (t :: l)) with (S (length l)) in P. lia. }
   rewrite Z, orb_false_r. change (0 + ?x) with x. rewrite negb_true_iff, N.eqb_neq.
-  generalize (map (run_test (s_all_sep s) 0) (s_tests s)) as its. clear. unfold total_fails.
+  generalize (map (run_case (s_all_sep s) (s_run_ign s) 0) (s_tests s)) as its. clear. unfold total_fails.
   induction its as [|it tl IH]; simpl.
   - split; [congruence|]. intros [it [[] _]].
   - split.
@@ -92,6 +104,28 @@ Proof.
       * assert (N.of_nat (fold_right (fun it0 a => (length (i_fails it0) + a)%nat) 0%nat tl) <> 0)
           by (apply IH; exists x; tauto). lia.
 Qed.
+
+(* ---- ignored tests over the whole run ---- *)
+Definition unmark (tc : tcase) : tcase := {| c_ign := false; c_test := c_test tc |}.
+Lemma run_case_unmark all_sep count tc : run_case all_sep true count tc = run_case all_sep true count (unmark tc).
+Proof. unfold run_case, unmark. destruct (c_ign tc); reflexivity. Qed.
+Lemma run_tests_unmark all_sep : forall ts count, run_tests all_sep true count ts = run_tests all_sep true count (map unmark ts).
+Proof.
+  induction ts as [|t tl IH]; intro count; [reflexivity|]. simpl. rewrite <- (run_case_unmark all_sep count t), IH. reflexivity.
+Qed.
+Lemma count_cases_unmark : forall ts a b, count_cases true a b ts = count_cases true a b (map unmark ts).
+Proof.
+  induction ts as [|t tl IH]; intros a b; [reflexivity|]. simpl. unfold skipped. simpl. rewrite !andb_false_r. apply IH.
+Qed.
+Lemma run_ignored_whole_run all_sep ts :
+  run {| s_all_sep := all_sep; s_run_ign := true; s_tests := ts |} =
+  run {| s_all_sep := all_sep; s_run_ign := true; s_tests := map unmark ts |}.
+Proof. unfold run. simpl. rewrite <- run_tests_unmark, <- count_cases_unmark. reflexivity. Qed.
+
+(* every valid case, ignored or not, run or not, is accounted for as the property asks *)
+Lemma every_case_accounted all_sep run_ign count tc : case_ok tc = true ->
+  case_item_ok all_sep run_ign tc (run_case all_sep run_ign count tc) = true.
+Proof. apply case_item_ok_run. Qed.
 
 (* ---- the signal number is in the record and in the text ---- *)
 Lemma signal_named s c : (1 <=? s) && (s <=? 126) = true ->
@@ -113,9 +147,11 @@ Proof. vm_compute. repeat split. Qed.
 
 (* ---- examples: the hypotheses are satisfiable and the definitions say what they should ---- *)
 Definition ex_prog : prog := {| p_pre := [ARaise 19]; p_setup := [AFail]; p_body := [ARaise 11]; p_teardown := [ARaise 20; ARaise 17]; p_post := [] |}.
+Definition tst (t : test) : tcase := {| c_ign := false; c_test := t |}.
+Definition ign (t : test) : tcase := {| c_ign := true; c_test := t |}.
 Definition ex_scn : scenario :=
-  {| s_all_sep := false;
-     s_tests := [TPlain true; TScripted true [SEv (EvStop 19); SEintr; SEv (EvKill 11 true)]; TReal ex_prog [IEintr; IReal; IEintr];
+  {| s_all_sep := false; s_run_ign := false;
+     s_tests := map tst [TPlain true; TScripted true [SEv (EvStop 19); SEintr; SEv (EvKill 11 true)]; TReal ex_prog [IEintr; IReal; IEintr];
                  TScripted false []; TReal (plain_prog false) []] |}.
 Example ex_valid : valid ex_scn = true. Proof. reflexivity. Qed.
 Example ex_run : map (fun it => (i_fails it, i_calls it, i_lost it)) (o_items (run ex_scn)) =
@@ -133,14 +169,39 @@ Proof. vm_compute. repeat split. Qed.
 Example ex_stream : ends_loop ((fun n => if (n =? 3)%nat then WStat 9 else WStat 0x137f) 3%nat) = true. Proof. reflexivity. Qed.
 Example ex_no_failure : seen 0 [SEintr; SEv EvCont; SEv (EvExit 0); SErr 5] = [SEintr; SEv EvCont] ++ [SEv (EvExit 0)]. Proof. reflexivity. Qed.
 (* the oracle is not vacuous: it rejects a killed child recorded as passing, a stop counted twice, a later test not run *)
-Definition ex_killed : scenario := {| s_all_sep := false; s_tests := [TScripted true [SEv (EvKill 9 false)]; TPlain false] |}.
+Definition ex_killed : scenario :=
+  {| s_all_sep := false; s_run_ign := false; s_tests := map tst [TScripted true [SEv (EvKill 9 false)]; TPlain false] |}.
 Definition mk_item (fs : list failure) (calls : nat) : item := {| i_started := true; i_fails := fs; i_calls := calls; i_conts := 0; i_lost := false |}.
 Example ex_spec_rejects :
-  spec ex_killed {| o_items := [mk_item [] 1; mk_item [] 0]; o_total := 0; o_failed := false; o_run := 2; o_late := false |} = false /\
-  spec ex_killed {| o_items := [mk_item [FKilled 9; FKilled 9] 1; mk_item [] 0]; o_total := 2; o_failed := true; o_run := 2; o_late := false |} = false /\
-  spec ex_killed {| o_items := [mk_item [FKilled 9] 1]; o_total := 1; o_failed := true; o_run := 1; o_late := false |} = false /\
-  spec ex_killed {| o_items := [mk_item [FKilled 9] 1; mk_item [] 0]; o_total := 1; o_failed := false; o_run := 2; o_late := false |} = false /\
-  spec ex_killed {| o_items := [mk_item [FKilled 9] 1; mk_item [] 0]; o_total := 1; o_failed := true; o_run := 2; o_late := false |} = true.
+  spec ex_killed {| o_items := [mk_item [] 1; mk_item [] 0]; o_total := 0; o_failed := false; o_run := 2; o_ign := 0; o_late := false |} = false /\
+  spec ex_killed {| o_items := [mk_item [FKilled 9; FKilled 9] 1; mk_item [] 0]; o_total := 2; o_failed := true; o_run := 2; o_ign := 0; o_late := false |} = false /\
+  spec ex_killed {| o_items := [mk_item [FKilled 9] 1]; o_total := 1; o_failed := true; o_run := 1; o_ign := 0; o_late := false |} = false /\
+  spec ex_killed {| o_items := [mk_item [FKilled 9] 1; mk_item [] 0]; o_total := 1; o_failed := false; o_run := 2; o_ign := 0; o_late := false |} = false /\
+  spec ex_killed {| o_items := [mk_item [FKilled 9] 1; mk_item [] 0]; o_total := 1; o_failed := true; o_run := 2; o_ign := 0; o_late := false |} = true.
+Proof. vm_compute. repeat split. Qed.
+
+(* ignored tests: one dying in its body under -p -ri is one failure and the next test runs; without -ri it leaves no trace,
+   is counted as ignored, and a run of ignored tests only is not a failure; the oracle rejects an ignored test that was run
+   without the switch and one that was passed over under it *)
+Definition ex_ign_prog : prog := {| p_pre := []; p_setup := []; p_body := [ARaise 11]; p_teardown := []; p_post := [] |}.
+Definition ex_ign (ri : bool) : scenario :=
+  {| s_all_sep := true; s_run_ign := ri; s_tests := [ign (TReal ex_ign_prog []); tst (TPlain false)] |}.
+Example ex_ign_valid : valid (ex_ign true) = true /\ valid (ex_ign false) = true. Proof. split; reflexivity. Qed.
+Example ex_ign_run :
+  map (fun it => (i_started it, i_fails it, i_calls it)) (o_items (run (ex_ign true))) = [(true, [FKilled 11], 1%nat); (true, [], 1%nat)] /\
+  (o_total (run (ex_ign true)), o_failed (run (ex_ign true)), o_run (run (ex_ign true)), o_ign (run (ex_ign true))) = (1, true, 2, 0) /\
+  map (fun it => (i_started it, i_fails it, i_calls it)) (o_items (run (ex_ign false))) = [(false, [], 0%nat); (true, [], 1%nat)] /\
+  (o_total (run (ex_ign false)), o_failed (run (ex_ign false)), o_run (run (ex_ign false)), o_ign (run (ex_ign false))) = (0, false, 1, 1) /\
+  o_failed (run {| s_all_sep := true; s_run_ign := false; s_tests := [ign (TReal ex_ign_prog [])] |}) = false.
+Proof. vm_compute. repeat split. Qed.
+Definition skip_it : item := {| i_started := false; i_fails := []; i_calls := 0; i_conts := 0; i_lost := false |}.
+Example ex_spec_rejects_ign :
+  spec (ex_ign false) {| o_items := [mk_item [FKilled 11] 1; mk_item [] 1]; o_total := 1; o_failed := true; o_run := 2; o_ign := 0; o_late := false |} = false /\
+  spec (ex_ign false) {| o_items := [skip_it; mk_item [] 1]; o_total := 0; o_failed := false; o_run := 2; o_ign := 0; o_late := false |} = false /\
+  spec (ex_ign false) {| o_items := [skip_it; mk_item [] 1]; o_total := 0; o_failed := false; o_run := 1; o_ign := 1; o_late := false |} = true /\
+  spec (ex_ign true) {| o_items := [skip_it; mk_item [] 1]; o_total := 0; o_failed := false; o_run := 1; o_ign := 1; o_late := false |} = false /\
+  spec (ex_ign true) {| o_items := [mk_item [] 0; mk_item [] 1]; o_total := 0; o_failed := false; o_run := 2; o_ign := 0; o_late := false |} = false /\
+  spec (ex_ign true) {| o_items := [mk_item [FKilled 11] 1; mk_item [] 1]; o_total := 1; o_failed := true; o_run := 2; o_ign := 0; o_late := false |} = true.
 Proof. vm_compute. repeat split. Qed.
 
 (* ---- a real child's stream always ends the loop ---- *)
@@ -177,6 +238,20 @@ Proof.
   rewrite <- (real_stream_merge count p inject). unfold real_stream.
   destruct (child_trace_ok p H) as [_ F]. destruct (child_trace p) as [st f]. simpl in F.
   apply smerge_never_out. apply fate_ends. exact F.
+Qed.
+
+(* an ignored real child run under the switch is contained exactly like any other: same stream, same loop, same item *)
+Lemma ignored_real_contained all_sep count p inject : prog_ok p = true ->
+  run_case all_sep true count {| c_ign := true; c_test := TReal p inject |} =
+    item_of_loop true (parent_loop 0 (map conc (real_stream p inject))) /\
+  lr_end (parent_loop 0 (map conc (real_stream p inject))) <> EndStreamOut /\
+  (forall run_ign, run_ign = false ->
+     i_fails (run_case all_sep run_ign count {| c_ign := true; c_test := TReal p inject |}) = []).
+Proof.
+  intro H. split; [|split].
+  - unfold run_case. cbn [c_ign c_test run_test]. unfold run_real. rewrite <- (real_stream_merge count p inject). reflexivity.
+  - rewrite (real_stream_merge count p inject). apply (real_child_contained count p inject H).
+  - intros r ->. reflexivity.
 Qed.
 
 (* ---- statements at retry count 0, as used in Properties_C11.v ---- *)
